@@ -1,15 +1,15 @@
 #!/bin/bash
-# Round B: runs every candidate seeded change under out/mutb_keep/<ID>/patchN.diff against the quick check of its
+# Round B: runs every candidate seeded change under ${KEEP:-out/mutb_keep}/<ID>/patchN.diff against the quick check of its
 # property in a scratch worktree (VERIF_REPO); /repo itself is never touched. Results: out/matrix_b.log
 # usage: tools/matrix_b.sh [ID ...]
-WT=/tmp/mutb/matrix
+WT=${WTBASE:-/tmp/mutb}/matrix
 git -C /repo worktree remove --force $WT 2>/dev/null
 git -C /repo worktree add -q --detach $WT HEAD || exit 1
-LOG=/verif/out/matrix_b.log
+LOG=${LOG:-/verif/out/matrix_b.log}
 cd /verif
-ids="$@"; [ -n "$ids" ] || ids=$(ls out/mutb_keep)
+ids="$@"; [ -n "$ids" ] || ids=$(ls ${KEEP:-out/mutb_keep})
 for id in $ids; do
-  for patch in out/mutb_keep/$id/patch*.diff; do
+  for patch in ${KEEP:-out/mutb_keep}/$id/patch*.diff; do
     n=$(basename $patch .diff | sed 's/patch//')
     (cd $WT && git checkout -q -- . && git clean -fdq && git apply /verif/$patch) || { echo "$id-b$n: patch does not apply" >> $LOG; continue; }
     VERIF_REPO=$WT timeout 2400 ./check $id quick > out/matrixb_$id-$n.log 2>&1; rc=$?
